@@ -22,6 +22,7 @@ type PointKind uint8
 const (
 	PSched PointKind = iota // which enabled thread runs next
 	PEnv                    // which environment answer is given (fault, ready select case, map order, ...)
+	PFree                   // a scenario-level choice that costs no budget (e.g. the order in which the harness opens gates)
 )
 
 // Point is one recorded decision with at least two alternatives.
@@ -355,6 +356,24 @@ func Choose(n int, desc string) int {
 	}
 	if Tracing {
 		ex.Trace = append(ex.Trace, fmt.Sprintf("   env: T%d %s -> %d of %d", cur.id, desc, c, n))
+	}
+	return c
+}
+
+// ChooseFree is a scenario-level decision with n alternatives that the explorer
+// always enumerates completely (it costs none of the budgets).
+func ChooseFree(n int, desc string) int {
+	if !Active || aborting || n <= 1 {
+		return 0
+	}
+	c, ok := takeChoice(n, PFree, false, desc)
+	if !ok {
+		endExecution()
+		<-cur.wake
+		runtime.Goexit()
+	}
+	if Tracing {
+		ex.Trace = append(ex.Trace, fmt.Sprintf("   free choice: T%d %s -> %d of %d", cur.id, desc, c, n))
 	}
 	return c
 }
